@@ -257,9 +257,14 @@ Definition set_reset (x : tctx) (b : bool) : tctx := mkCtx (x_opts x) (x_cid x) 
 (* resp.SkipBody during ReadLimitBody: customSkipBody || req.Header.IsHead() *)
 Definition eff_skip (o : opts) : bool := o_skip o || is_head (o_kind o).
 
-(* closeConn := resetConnection || req.ConnectionClose() || resp.ConnectionClose() *)
+(* a body skipped on the caller's request is still on the wire:
+   customSkipBody && !req.Header.IsHead() && !resp.Header.mustSkipContentLength() && resp.Header.ContentLength() != 0 *)
+Definition skipped_body (o : opts) (h : head) : bool :=
+  o_skip o && negb (is_head (o_kind o)) && negb (h_nobody h) && negb (match h_fr h with FLen 0 => true | _ => false end).
+(* closeConn := resetConnection || req.ConnectionClose() || resp.ConnectionClose(); if <skipped body> { closeConn = true } *)
 Definition close_conn (x : tctx) : bool :=
-  x_reset x || o_reqclose (x_opts x) || match x_head x with Some h => resp_close h | None => true end.
+  x_reset x || o_reqclose (x_opts x) ||
+  match x_head x with Some h => resp_close h || skipped_body (x_opts x) h | None => true end.
 
 (* the tail of RoundTrip once ReadLimitBody returned nil *)
 Definition finish (s : st) (t : nat) (x : tctx) (k : conn) (body : bool) : st :=
@@ -404,14 +409,6 @@ Fixpoint run (s : st) (tr : list label) : option st :=
 Inductive reach (max : nat) : st -> Prop :=
 | reach_init : reach max (init max)
 | reach_step : forall s l s1, reach max s -> step s l = Some s1 -> reach max s1.
-
-(* The finding "skipbody-nonhead-pooled": a caller-set resp.SkipBody on a non-HEAD request leaves the body on the wire.  The guarded
-   theorems quantify over histories in which SkipBody is only set for HEAD requests. *)
-Definition skip_safe (o : opts) : bool := negb (o_skip o) || is_head (o_kind o).
-Definition label_safe (l : label) : bool := match l with LAcquire _ o _ => skip_safe o | _ => true end.
-Inductive reach_g (max : nat) : st -> Prop :=
-| reachg_init : reach_g max (init max)
-| reachg_step : forall s l s1, reach_g max s -> label_safe l = true -> step s l = Some s1 -> reach_g max s1.
 
 (* ---- Part 4: PipelineClient --------------------------------------------------------------------------------------------- *)
 (* One pipelineConnClient.  An item is a pipelineWork, identified by its call number.  Callers only matter through what they put
